@@ -292,7 +292,7 @@ func Gen(thorough bool) *rapid.Generator[Script] {
 		s.Q = rapid.SampledFrom(qs).Draw(t, "Q")
 		// nanoseconds to hours: virtual time costs nothing
 		s.I = rapid.SampledFrom([]int64{1000, 1000000, 1000000000, 7, 1, 1500000000, 60000000000, 3600000000000}).Draw(t, "I")
-		s.InCap = rapid.SampledFrom([]int{0, 1, 2, 3, 8}).Draw(t, "cap")
+		s.InCap = rapid.SampledFrom([]int{0, 0, 1, 2, 3, 8, 64, 300}).Draw(t, "cap")
 		iv := s.I
 		gapPool := []int64{0, 0, 0, iv / 10, iv / 2, iv - 1, iv, iv + 1, 3 * iv}
 		maxN := 24
@@ -300,6 +300,9 @@ func Gen(thorough bool) *rapid.Generator[Script] {
 			maxN = 48
 		}
 		n := rapid.IntRange(0, maxN).Draw(t, "n")
+		if rapid.IntRange(0, 15).Draw(t, "long") == 0 {
+			n = rapid.IntRange(100, 400).Draw(t, "nlong") // more elements than any buffer
+		}
 		mode := rapid.SampledFrom([]string{"prefilled", "mixed", "trickle", "stallburst"}).Draw(t, "mode")
 		s.Gaps = make([]int64, n)
 		for i := range s.Gaps {
